@@ -133,7 +133,7 @@ def report(pid, spec, tier, seed, bld, queries, results, findings, pre, t0, a):
             bad.append(r)
             for k in ('inconclusive',):
                 for pp in r.get(k, []) or []:
-                    print('    %s: %s [%s]' % (k, pp['desc'], pp['status']))
+                    print('    %s: %s %s [%s]' % (k, pp['id'], pp['desc'], pp['status']))
     for l in known_lines:
         print(l)
     for pr in pre:
